@@ -420,7 +420,7 @@ def check(repo, rep, tier):
     rule_sign(repo, r4)
     r5 = rep.rule("R-C05-5", "divisors are tested for zero before use", floor=4)
     rule_divisor(repo, r5)
-    r7 = rep.rule("R-C05-7", "range-checking decomposition on every completing path of the arms that depend on it", floor=5)
+    r7 = rep.rule("R-C05-7", "range-checking decomposition on every completing path of the arms that depend on it", floor=1)
     rule_domain(repo, r7)
     r8 = rep.rule("R-C05-8", "integer operators report Python's integer, not its residue mod p", floor=1)
     rule_no_reduction(repo, r8)
